@@ -417,6 +417,9 @@ func (s *Service) handleConn(conn net.Conn) {
 			return
 		default:
 			s.Logger.Warn("Coordinator service message type not found", zap.Uint8("Type", typ))
+			// The length and body of an unknown message cannot be skipped
+			// reliably; reading on would interpret them as further messages.
+			return
 		}
 	}
 }
